@@ -257,7 +257,7 @@ Definition run_base (inp : list N) : list N :=
               let n := N.to_nat (N.min rb 3) in
               run_mpsc_ops c cs ops {| mw_snd := repeat m0 n; mw_q := []; mw_alive := repeat true n; mw_sent := [] |} []
           | 4 => run_oneshot_ops c cs rmd DEFAULT_MAX_PORTS ops
-          | 5 => [1]
+          | 5 | 6 => [1]
           | _ => [98]
           end
       end
